@@ -110,6 +110,14 @@ TypeOf(x, C, P) ==
                     IF ~Ok(t) THEN ERR ELSE IF x.t = UNIT THEN UNIT ELSE IF Fits(t, x.t) THEN x.t ELSE ERR
     [] e = "asg" -> IF x.x \in DOMAIN C.G /\ C.G[x.x].asg /\ Fits(TypeOf(x.v, C, P), C.G[x.x].t) THEN C.G[x.x].t ELSE ERR
     [] e = "let" -> IF Fits(TypeOf(x.v, C, P), x.t) THEN TypeOf(x.body, BindV(C, x.x, x.t, TRUE), P) ELSE ERR
+    \* several values: <<"tup", <<t1, .., tn>>>>; a multiple assignment needs n distinct assignable variables of fitting types
+    [] e = "tuple" -> LET ts == TypesOf(x.args, C, P) IN
+                      IF Len(ts) >= 2 /\ (\A i \in 1..Len(ts) : Ok(ts[i]) /\ ts[i] # ANY /\ ts[i][1] # "tup") THEN <<"tup", ts>> ELSE ERR
+    [] e = "masg" -> LET vt == TypeOf(x.v, C, P) IN
+                     IF Ok(vt) /\ vt[1] = "tup" /\ Len(vt[2]) = Len(x.xs)
+                        /\ (\A i \in 1..Len(x.xs) : x.xs[i] \in DOMAIN C.G /\ C.G[x.xs[i]].asg /\ Fits(vt[2][i], C.G[x.xs[i]].t))
+                        /\ (\A i, j \in 1..Len(x.xs) : x.xs[i] = x.xs[j] => i = j)
+                     THEN UNIT ELSE ERR
     \* overloading: the functions that share the called function's Aldor name are the candidates; the call is
     \* well typed iff exactly one candidate accepts the argument types (Resolve)
     [] e = "call" ->
